@@ -14,10 +14,10 @@ COERCE_VARIANT = {"as_str": "Bytes", "as_bytes": "Bytes", "try_bytes": "Bytes", 
                   "try_integer": "Integer", "as_float": "Float", "try_float": "Float", "as_boolean": "Boolean", "try_boolean": "Boolean",
                   "as_object": "Object", "try_object": "Object", "as_array": "Array", "try_array": "Array", "as_timestamp": "Timestamp",
                   "try_timestamp": "Timestamp", "as_regex": "Regex", "try_regex": "Regex", "as_object_mut": "Object", "as_array_mut": "Array"}
-COERCE_EXEMPT = {
-    ("stdlib::filter::filter", "as_boolean"): "the closure's output kind is checked at compile time (Builder::compile_closure, ReturnTypeMismatch) "
-                                              "against Output::Kind(boolean) declared by Filter::closure()",
-}
+# (was: filter's `as_boolean().expect(..)` on the closure result, exempted because the closure's output kind is checked at compile time. That
+# reasoning was wrong — `filter(..) -> |_i, v| { is_string({ return 5 }) }` makes the closure yield an integer and panicked — so the exemption
+# is gone and filter was repaired to return an error.)
+COERCE_EXEMPT = {}
 
 
 def coerced_variant_known(facts, b, cterm, cbb):
